@@ -1,0 +1,22 @@
+//go:build verif
+
+package flows
+
+import (
+	"context"
+
+	agglayertypes "github.com/agglayer/aggkit/agglayer/types"
+	"github.com/agglayer/aggkit/aggsender/types"
+	"github.com/agglayer/aggkit/bridgesync"
+	"github.com/ethereum/go-ethereum/common"
+)
+
+// VerifC09GetImportedBridgeExits runs the real (*baseFlow).getImportedBridgeExits (which calls the real
+// ConvertClaimToImportedBridgeExit and l1InfoTreeDataQuerier.GetProofForGER) for the given claims against the
+// named L1 info tree root. Thin wrapper for the /verif C09 harness; getImportedBridgeExits reads only
+// f.l1InfoTreeDataQuerier and f.log.
+func VerifC09GetImportedBridgeExits(ctx context.Context, log types.Logger, l1q types.L1InfoTreeDataQuerier,
+	claims []bridgesync.Claim, rootFromWhichToProve common.Hash) ([]*agglayertypes.ImportedBridgeExit, error) {
+	f := &baseFlow{l1InfoTreeDataQuerier: l1q, log: log}
+	return f.getImportedBridgeExits(ctx, claims, rootFromWhichToProve)
+}
